@@ -82,6 +82,9 @@ func check(c Case) error {
 	for _, sib := range vk.Siblings(upper) { // related inputs first, results discarded
 		_, _ = translate(sib, table)
 	}
+	for _, st := range vk.Stems(upper) { // the steps of building the input up, ending with the one that lacks only the last letter
+		_, _ = translate(st, table)
+	}
 	if c.Prior != "" {
 		_, _ = translate(c.Prior, table)
 	}
